@@ -401,15 +401,13 @@ impl Settings {
             grammar_path.paint(LOG)
         );
         let relative_outdir = |p: &Path| -> Result<PathBuf> {
-            Ok(p.join(
-                grammar_path
-                    .parent()
-                    .ok_or(Error::Error(format!(
-                        "Cannot find parent of '{grammar_path:?}' file."
-                    )))?
-                    .strip_prefix(self.root_dir.as_ref().expect("'root_dir' must be set!"))
-                    .unwrap_or(grammar_path),
-            ))
+            let parent = grammar_path.parent().ok_or(Error::Error(format!(
+                "Cannot find parent of '{grammar_path:?}' file."
+            )))?;
+            // If root dir is not given (e.g. a single grammar is processed from
+            // the CLI) the output goes directly to the out dir.
+            let root_dir = self.root_dir.as_deref().unwrap_or(parent);
+            Ok(p.join(parent.strip_prefix(root_dir).unwrap_or(grammar_path)))
         };
 
         let out_dir = self
